@@ -1,7 +1,8 @@
 /-
 C10 — bot side: `irclib.ChannelState`, `irclib.IrcState.addMsg` and the part of `irclib.Irc.feedMsg`
 that maintains `irc.nick` / `irc.prefix`, written against the code as it is in /repo (after the
-`fix:` commits for the case-only NICK, the userhost-in-names 353 and the bot's own CHGHOST).
+`fix:` commits for the case-only NICK, the userhost-in-names 353, the bot's own CHGHOST, the
+invite-exception list and the late 324/329 replies).
 
 Sets and dicts keyed by nicks / channel names are IRC-case-insensitive in the code
 (`IrcSet`, `IrcDict`); here they hold the *lowered* key (`lower` = `ircutils.toLower`, table
@@ -382,20 +383,25 @@ def Bot.doMode (b : Bot) (m : Msg) : Bot × Bool :=
 def Bot.do324 (b : Bot) (m : Msg) : Bot × Bool :=
   match m.args with
   | _ :: ch :: rest =>
-    let r := runSteps Chan.step324 (b.chanOrNew ch) (separateModes rest)
-    (b.setChan ch r.1, r.2)
+    match b.chan ch with
+    | none => (b, false)
+    | some c =>
+      let r := runSteps Chan.step324 c (separateModes rest)
+      (b.setChan ch r.1, r.2)
   | _ => (b, true)
 
 def Bot.do329 (b : Bot) (m : Msg) : Bot × Bool :=
   match m.args with
   | _ :: ch :: rest =>
-    let c := b.chanOrNew ch
-    match rest with
-    | [] => (b.setChan ch c, true)
-    | t :: _ =>
-      match pyInt t with
-      | none => (b.setChan ch c, true)
-      | some n => (b.setChan ch { c with created := n }, false)
+    match b.chan ch with
+    | none => (b, false)
+    | some c =>
+      match rest with
+      | [] => (b, true)
+      | t :: _ =>
+        match pyInt t with
+        | none => (b, true)
+        | some n => (b.setChan ch { c with created := n }, false)
   | _ => (b, true)
 
 def Bot.do353 (b : Bot) (m : Msg) : Bot × Bool :=
